@@ -24,7 +24,11 @@ an hour in, fractions of a ms, int-typed, 0.5 ms steps), zero-length and off-gri
 (StepMania with mines and rolls as further lists), how the note lists were built (row order, row labels), the entry
 point (from_note_lists with the lists in either order, `include_tails` defaulted, or the Pattern constructor), the way
 arguments are passed (defaults omitted / positional / keywords), earlier group() calls on the same Pattern, one PtnCombo
-used for all calls of a case, calls repeated with the same filter objects, 1..3 base rows per filter."""
+used for all calls of a case, calls repeated with the same filter objects, 1..3 base rows per filter; note lists that were
+ALREADY grouped once with other contents and then edited in place (times shifted through `.offset +=`, columns rotated
+through `.column =`) before the Pattern of the case is made from the same list objects (`relist`); a vertical window far
+beyond every time difference (1e9) and between two grid steps; 10 columns; for StepMania every further note list the chart
+itself carries (lifts, fakes, keysounds - read from SMMap().objs, not from a table here)."""
 from __future__ import annotations
 
 from collections import Counter
@@ -34,7 +38,7 @@ from pyvc.dsl import bounded
 from pyvc.bounded import replayer
 
 KEYS = 4
-KEY_COUNTS = [4, 4, 4, 5, 7]
+KEY_COUNTS = [4, 4, 4, 5, 7, 4, 4, 5, 7, 10]
 TIMES = [0.0, 50.0, 100.0]
 V_WINDOWS = [0, 50, 100]
 # alternative time scales: (times, vertical windows); all dyadic so that t0 + v is exact in floating point
@@ -46,6 +50,7 @@ TIME_SETS = {
     "int": ([0, 50, 100], V_WINDOWS),                                   # python ints: int-typed offset column
     "tight": ([0.0, 0.5, 1.0], [0, 0.5, 1.0]),                          # several times inside one millisecond
 }
+V_EXTRA = ["huge", "between"]                                           # 1e9 (beyond every difference) / half a grid step
 H_WINDOWS = [None, 0, 1, 2]
 H_WIDE = [2, 2, 3, 10]                                                  # the last window of a note set, incl. >= key count
 HOLD_LENGTHS = [50.0, 100.0]
@@ -60,6 +65,33 @@ JUNK_T = -99999.0
 # failing clause `chord_filter_lower_higher_per_base_row` (kept apart from `chord_filter_options_as_documented`).
 ASSERT_PER_ROW_BOUNDS = False  # the Option docstring defines AND_LOWER / AND_HIGHER for ONE base row only; with several rows reamber pools them into one bounding box.
 # Neither the property nor the docstring says which reading is meant, so this is counted (extra.chord_tables_beyond_per_row_bounds), not asserted (DESIGN section 10).
+
+
+def _sm_further_lists():
+    """The note lists an SMMap carries besides hits / holds / mines / rolls, read from the chart object itself:
+    [(name, list class, item class, is hold-like)]"""
+    from reamber.sm import SMMap
+    from reamber.base.lists.notes.NoteList import NoteList
+    from reamber.base.lists.notes.HoldList import HoldList
+
+    out = []
+    for name, lst in SMMap().objs.items():
+        if isinstance(lst, NoteList) and name not in ("hits", "holds", "mines", "rolls"):
+            out.append((name, type(lst), type(lst)._item_class(), isinstance(lst, HoldList)))
+    return sorted(out, key=lambda e: e[0])
+
+
+def _sm_further_kinds():
+    """kind id ('hit3', 'hit4', ... / 'hold3', ...) -> (list class, item class)"""
+    out, nh, nl = {}, 2, 2
+    for _, L, I, hold in _sm_further_lists():
+        if hold:
+            nl += 1
+            out[f"hold{nl}"] = (L, I)
+        else:
+            nh += 1
+            out[f"hit{nh}"] = (L, I)
+    return out
 
 
 def _types(cls):
@@ -78,7 +110,7 @@ def _types(cls):
     if cls == "sm":
         from reamber.sm import SMHit, SMHold, SMMine, SMRoll
 
-        return dict(base, hit=SMHit, hold=SMHold, hit2=SMMine, hold2=SMRoll)
+        return dict(base, hit=SMHit, hold=SMHold, hit2=SMMine, hold2=SMRoll, **{k: I for k, (L, I) in _sm_further_kinds().items()})
     if cls == "bms":
         from reamber.bms import BMSHit, BMSHold
 
@@ -103,7 +135,7 @@ def _list_classes(cls):
     if cls == "sm":
         from reamber.sm.lists.notes import SMHitList, SMHoldList, SMMineList, SMRollList
 
-        return dict(hit=(SMHitList, {}), hold=(SMHoldList, {}), hit2=(SMMineList, {}), hold2=(SMRollList, {}))
+        return dict(hit=(SMHitList, {}), hold=(SMHoldList, {}), hit2=(SMMineList, {}), hold2=(SMRollList, {}), **{k: (L, {}) for k, (L, I) in _sm_further_kinds().items()})
     if cls == "bms":
         from reamber.bms.lists.notes import BMSHitList, BMSHoldList
 
@@ -155,7 +187,7 @@ def _mk_list(cls, rows, mk, lay):
 def _kind(note):
     """hit / hold / hit2 / hold2 (the 4th entry of a note selects the game's second list class of that kind)"""
     k = "hit" if note[2] is None else "hold"
-    return k + "2" if len(note) > 3 and note[3] else k
+    return k + str(note[3] + 1) if len(note) > 3 and note[3] else k
 
 
 def _pattern(case):
@@ -194,10 +226,12 @@ def _pattern(case):
     LC = _list_classes(case["cls"])
     lay = case.get("layout") or {}
     lists = []
-    for kind in ("hit", "hold", "hit2", "hold2"):
-        if kind not in LC:
-            continue
+    rl = case.get("relist")                                         # {"d": time shift, "rot": bool}: see below
+    keys = case.get("keys", KEYS)
+    for kind in LC:
         rows = [n for n in case["notes"] if _kind(n) == kind]
+        if rl:                                                      # the lists are first built with OTHER contents
+            rows = [[(n[0] + 1) % keys if rl.get("rot") else n[0], n[1] - rl["d"], *n[2:]] for n in rows]
         L, kw = LC[kind]
         if kind.startswith("hit"):
             lists.append(_mk_list(L, rows, lambda r, kind=kind, kw=kw: T[kind](offset=num(r[1]), column=num(r[0]), **kw), lay.get(kind)))
@@ -205,6 +239,15 @@ def _pattern(case):
             lists.append(_mk_list(L, rows, lambda r, kind=kind, kw=kw: T[kind](offset=num(r[1]), column=num(r[0]), length=num(r[2]), **kw), lay.get(kind)))
     if case.get("entry") == "lists_reversed":
         lists.reverse()
+    if rl:
+        # ... grouped once as they are, then edited IN PLACE through the list properties to the contents of the case; the Pattern
+        # under test is made from the same list objects afterwards and must show the notes as they are now
+        Pattern.from_note_lists(lists, include_tails=tails).group(v_window=case["v"], h_window=case["h"], avoid_jack=case["jack"])
+        for lst in lists:
+            if len(lst.df):
+                lst.offset += rl["d"]
+                if rl.get("rot"):
+                    lst.column = (lst.column + (keys - 1)) % keys
     if case.get("tails_arg") == "default" and tails:
         return Pattern.from_note_lists(lists), want                 # include_tails defaults to True
     if case.get("tails_arg") == "positional":
@@ -543,20 +586,29 @@ def _run_case(case, observe=None):
 
 
 # ---------------------------------------------------------------------------------------------- generation
-def _random_notes(rng, keys=KEYS, times=TIMES, lengths=HOLD_LENGTHS, second_kinds=False):
+def _random_notes(rng, keys=KEYS, times=TIMES, lengths=HOLD_LENGTHS, second_kinds=False, narrow=False):
     k = rng.choice([0, 1, 2, 3, 3, 4, 4, 5, 5, 6, 6, 6])
     cells = [(c, t) for c in range(keys) for t in times]
+    hold_p = 0.3
+    if narrow:
+        # everything in one or two columns, half of the notes holds: same-column runs over 3 consecutive groups, with hold
+        # tails at the start, INSIDE and at the end of a run
+        cols = rng.sample(range(keys), rng.choice([1, 2, 2]))
+        cells = [(c, t) for c in cols for t in times]
+        k, hold_p = min(rng.choice([3, 4, 5, 6]), len(cells)), 0.5
     notes = []
     for c, t in rng.sample(cells, k):
-        notes.append([c, t, rng.choice(lengths) if rng.random() < 0.3 else None])
+        notes.append([c, t, rng.choice(lengths) if rng.random() < hold_p else None])
     if notes and rng.random() < 0.1:                                   # a second note on an occupied cell
         c, t, _ = rng.choice(notes)
         if len(notes) < 6:
             notes.append([c, t, rng.choice([None, 50.0])])
-    if second_kinds:                                                   # StepMania: mines / rolls are further note lists
+    if second_kinds:                                                   # StepMania: mines / rolls / every further list of the chart
+        n_hit = 1 + sum(1 for k in _sm_further_kinds() if k.startswith("hit"))
+        n_hold = 1 + sum(1 for k in _sm_further_kinds() if k.startswith("hold"))
         for n in notes:
-            if rng.random() < 0.35:
-                n.append(1)
+            if rng.random() < 0.45:
+                n.append(rng.randrange(1, (n_hit if n[2] is None else n_hold) + 1))
     if isinstance(times[0], int):                                      # int-typed charts: lengths are ints too
         for n in notes:
             if n[2] is not None:
@@ -590,12 +642,12 @@ def _random_filter(rng, kind, n, keys=KEYS):
     return dict(rows=rows, options=rng.randrange(4), exclude=rng.random() < 0.4)
 
 
-def _random_cfgs(rng, keys=KEYS):
+def _random_cfgs(rng, keys=KEYS, narrow=False):
     cfgs = []
     for _ in range(4):
         n = rng.choice([2, 2, 3, 4])
         cfgs.append(dict(kind="combinations", size=n, size2=rng.random() < 0.3, chord=_random_filter(rng, "chord", n, keys), combo=_random_filter(rng, "combo", n, keys), type=_random_filter(rng, "type", n, keys)))
-    cfgs.append(dict(kind="jacks", length=rng.choice([2, 2, 3, 4])))
+    cfgs.append(dict(kind="jacks", length=rng.choice([3, 3, 4, 2] if narrow else [2, 2, 3, 4])))
     cfgs.append(dict(kind="chord_stream", primary=rng.randrange(1, 4), secondary=rng.randrange(1, 3), and_lower=rng.random() < 0.5, include_jack=rng.random() < 0.5))
     for c in cfgs:
         if rng.random() < 0.3:
@@ -648,8 +700,11 @@ def _random_base(rng, plain=False):
         lengths = [0.5, 1.0] + ([0.0, 0.25] if rng.random() < 0.4 else [])
     elif tname == "int":
         lengths = [x for x in lengths if float(x).is_integer()]
-    notes = _random_notes(rng, keys, times, lengths, second_kinds=(cls == "sm"))
-    base = dict(notes=notes, cls=cls, tails=rng.random() < 0.6, keys=keys, times=tname)
+    narrow = rng.random() < 0.15
+    notes = _random_notes(rng, keys, times, lengths, second_kinds=(cls == "sm"), narrow=narrow)
+    base = dict(notes=notes, cls=cls, tails=rng.random() < (0.9 if narrow else 0.6), keys=keys, times=tname)
+    if narrow:
+        base["narrow"] = True
     r = rng.random()
     if r < 0.15:
         base["entry"] = "ctor"
@@ -660,7 +715,7 @@ def _random_base(rng, plain=False):
         if r < 0.4:
             base["entry"] = "lists_reversed"
         layout = {}
-        for kind in ("hit", "hold", "hit2", "hold2"):
+        for kind in _list_classes(cls):
             lay = _random_layout(rng, [n for n in notes if _kind(n) == kind])
             if lay:
                 layout[kind] = lay
@@ -671,6 +726,9 @@ def _random_base(rng, plain=False):
             base["tails_arg"] = "default"
         elif q < 0.4:
             base["tails_arg"] = "positional"
+        if rng.random() < 0.2:
+            step = times[1] - times[0]                                 # int for the int-typed scale
+            base["relist"] = dict(d=step, rot=rng.random() < 0.5)
     if rng.random() < 0.08:
         base["np_scalars"] = True
     hws = H_WINDOWS[:3] + [rng.choice(H_WIDE)]
@@ -690,6 +748,10 @@ def grouping_and_combinations_vs_statement(rep):
                  ".sorted() / .sorted(reverse=True) / append(sort=True) / a filter removing interleaved rows / a DataFrame with permuted, reversed, offset, gappy or duplicated labels; "
                  f"EACH note set is grouped with all 24 settings v in 3 windows (0, one step, two steps of its time scale; 30% as floats) x h in {H_WINDOWS[:3]} + one of {sorted(set(H_WIDE))} x avoid_jack in (True, False), "
                  "15% positionally, 25% with default-valued arguments left out, 20% after 1-2 other group() calls on the same Pattern; "
+                 "15% of the wider note sets 'narrow': 3..6 notes in one or two columns, half of them holds, tails requested in 90%, combinations / templates for 8 of the groupings, template_jacks lengths mostly 3-4 "
+                 "(same-column runs over 3+ groups with a hold tail inside); 35% of the wider note sets with 2 more groupings at v = 1e9 or half a grid step; 20% of the from_note_lists sets: the lists were built one grid step earlier (half of them with rotated columns), "
+                 "grouped once, then edited in place through .offset += / .column = before the Pattern under test is made from the same objects; K also 10 (1/10); StepMania notes also in every further "
+                 "note list SMMap().objs carries (lifts, fakes, keysounds); "
                  "for 3 of the 24 groupings, on ONE PtnCombo: 4 combinations() calls (size 2..4, make_size2 30%, chord-size / column / type filter each absent 40% or created by the real create() from 1-3 random rows "
                  "with a random option bitmask (chord 0..7, column 0..7, type 0..3) and exclude; every created table is compared with the documented option expansion), 1 template_jacks (length 2..4), 1 template_chord_stream; "
                  "30% of the calls with defaults left out / by keyword, 15% made twice")
@@ -704,17 +766,31 @@ def grouping_and_combinations_vs_statement(rep):
         notes = base["notes"]
         keys = base.get("keys", KEYS)
         settings = [(v, h, j) for v in vws for h in hws for j in (True, False)]
-        with_combos = set(rng.sample(range(len(settings)), 3))
+        with_combos = set(rng.sample(range(len(settings)), 8 if base.get("narrow") else 3))
+        if not plain and rng.random() < 0.35:
+            # the ends of the vertical window's range: beyond every time difference / strictly between two grid steps
+            step = times[1] - times[0]
+            v_more = 1000000000.0 if rng.random() < 0.5 else (step / 2 if not isinstance(step, int) else 25)
+            settings += [(v_more, rng.choice(hws), j) for j in (True, False)]
+            stats["extra_v_windows"] += 1
         stats["note_sets"] += 1
         for k in ("entry", "tails_arg", "np_scalars", "times", "cls"):
             if base.get(k) not in (None, "base"):
                 stats[f"{k}={base[k]}"] += 1
+        if base.get("narrow"):
+            stats["narrow_note_sets"] += 1
+        if base.get("relist"):
+            stats["lists_grouped_before_then_edited_in_place"] += 1
+        if any(len(n) > 3 and n[3] > 1 for n in notes):
+            stats["sm_further_lists"] += 1
+        if keys > 7:
+            stats["keys=10"] += 1
         for kind, lay in (base.get("layout") or {}).items():
             stats[f"list_via_{lay['via']}"] += 1
         if any(n[2] == 0 for n in notes):
             stats["zero_length_hold"] += 1
         for i_s, (v, h, j) in enumerate(settings):
-            case = dict(base, v=v, h=h, jack=j, combos=_random_cfgs(rng, keys) if i_s in with_combos else [])
+            case = dict(base, v=v, h=h, jack=j, combos=_random_cfgs(rng, keys, bool(base.get("narrow"))) if i_s in with_combos else [])
             if not plain:
                 r = rng.random()
                 if r < 0.15:
